@@ -84,4 +84,14 @@ def extra_obligations(repo, D, pid):
     missing = sorted(set(repo.param_defaults) - set(repo.param_types))
     out.append(Ob('ParameterList.param_type/frame[every default parameter has a type/range row]', 'frame', 'ParameterList.param_type', ['C07'], [],
                   z3.BoolVal(not missing), 0, 'unsat', {'syntactic': True, 'why': str(missing)}))
+    # the type/range table itself is pinned (contracts/param_table.json): the ranges ARE the documented domain of C07, so a row that changes in params.py is a violation
+    # ("out-of-range ... user parameters yield a result with the input-error flag"), not a new specification
+    import json, os
+    pinned = json.load(open(os.path.join(os.path.dirname(os.path.abspath(__file__)), 'param_table.json')))['table']
+    for key in sorted(set(pinned) | set(repo.param_types)):
+        cur = repo.param_types.get(key)
+        cur_row = [cur[0], cur[1], ast.unparse(cur[2]) if cur[2] is not None else None, ast.unparse(cur[3]) if cur[3] is not None else None] if cur else None
+        out.append(Ob('ParameterList.param_type/frame[row of %s is the documented one: type, None allowed, lower, upper]' % key, 'frame', 'ParameterList.param_type', ['C07'], [],
+                      z3.BoolVal(cur_row == pinned.get(key)), 0, 'unsat', {'syntactic': True, 'why': 'now %s, documented %s' % (cur_row, pinned.get(key)), 'param_key': key,
+                                                                            'documented': pinned.get(key), 'current': cur_row}))
     return out
